@@ -2145,9 +2145,21 @@ def float_to_int(v, ty):
         conv = z3.fpToUBV(z3.RTZ(), x, z3.BitVecSort(w))
     flo = z3.FPVal(float(lo), sort)
     fhi = z3.FPVal(float(hi), sort)      # rounds up to 2^w for wide types: handled by using >=
-    r = z3.If(z3.fpIsNaN(x), z3.BitVecVal(0, w),
-              z3.If(z3.fpLEQ(x, flo), z3.BitVecVal(lo & ((1 << w) - 1), w),
-                    z3.If(z3.fpGEQ(x, fhi), z3.BitVecVal(hi, w), conv)))
+    # The three guards are floating-point predicates: as abstraction atoms (fp_atom) they keep path conditions that
+    # mention the cast result in the bit-vector fragment.  When none of them holds, lo < x < float(hi), so the
+    # truncated value is strictly inside (lo, hi): stating that on the bit-vector side lets "cast == MAX"
+    # (the overflow check of `x as u32 + 1`) be decided without floating-point reasoning.
+    is_nan = to_z3bool(fp_atom(z3.fpIsNaN(x)))
+    is_le = to_z3bool(fp_atom(z3.fpLEQ(x, flo)))
+    is_ge = to_z3bool(fp_atom(z3.fpGEQ(x, fhi)))
+    hi_bv = z3.BitVecVal(hi, w)
+    lo_bv = z3.BitVecVal(lo & ((1 << w) - 1), w)
+    if s:
+        inside = z3.And(conv < hi_bv, conv > lo_bv)
+        clamped = z3.If(inside, conv, z3.BitVecVal(0, w))
+    else:
+        clamped = z3.If(z3.ULT(conv, hi_bv), conv, hi_bv - 1)
+    r = z3.If(is_nan, z3.BitVecVal(0, w), z3.If(is_le, lo_bv, z3.If(is_ge, hi_bv, clamped)))
     return mk_int(ty, r)
 
 
